@@ -152,5 +152,5 @@ func c12Gen(t *rapid.T) c12Case {
 }
 
 func TestC12(t *testing.T) {
-	ev.Check(t, "c12_total", ev.N(50000, 2000000), c12Gen, c12Run)
+	ev.Check(t, "c12_total", ev.N(400000, 6000000), c12Gen, c12Run)
 }
